@@ -16,6 +16,7 @@ BUDGET = {
     "quick": {"workers": 16, "cases": 1200, "secs": 60, "min_cases": 9600},
     "thorough": {"workers": 16, "rounds": 4, "cases": 3200, "secs": 420, "min_cases": 102400},
 }
+SIBLINGS = True  # consecutive cases with identical structure and different gate types
 ANCHORS = ["tx:acyclic_unroll"]
 
 
